@@ -2932,9 +2932,14 @@ def _put_slice_Call_ClassDef_keywords(
     exprs_field = 'args' if ast.__class__ is Call else 'bases'
     exprs = getattr(ast, exprs_field)
 
-    if exprs and start != stop and body[start].f.loc < exprs[-1].f.loc:
-        raise NodeError(f'cannot put to {ast.__class__.__name__}.keywords slice because it precedes {exprs_field}'
-                        f", try the '_{exprs_field}' field")
+    if exprs and start < len(body) and body[start].f.loc < exprs[-1].f.loc:
+        if start != stop:
+            raise NodeError(f'cannot put to {ast.__class__.__name__}.keywords slice because it precedes {exprs_field}'
+                            f", try the '_{exprs_field}' field")
+
+        start = stop = self._cached_arglikes().index(body[start])  # pure insertion before keyword which precedes some positional, its arglike index is not `start + nexprs`
+
+        return _put_slice_Call_ClassDef_arglikes(self, code, start, stop, '_' + exprs_field, one, options, kw_only=True)
 
     nexprs = len(exprs)
 
